@@ -123,7 +123,7 @@ func (r *Run) Paths(fn *Func) []Path {
 				if (c.Op != token.EQL && c.Op != token.NEQ) || !(isNilIdent(ev.Fn.Info(), c.X) || isNilIdent(ev.Fn.Info(), c.Y)) {
 					continue
 				}
-			case *ast.Ident, *ast.CallExpr:
+			case *ast.Ident, *ast.CallExpr, *ast.SelectorExpr:
 			default:
 				continue
 			}
@@ -243,6 +243,42 @@ func (r *Run) contradictsHelperResult(path *Path, j int) bool {
 			return false
 		}
 		val, known := r.knownTruth(path, rfn, res)
+		if !known {
+			return false
+		}
+		return val != ev.Val
+	case *ast.SelectorExpr:
+		// latest.found, where latest is the struct a looked-into helper returned on this path: the field's value in
+		// the literal it returned (absent: the zero value)
+		sel, isSel := info.Selections[v]
+		if !isSel || sel.Kind() != types.FieldVal {
+			return false
+		}
+		if b, isB := sel.Type().Underlying().(*types.Basic); !isB || b.Info()&types.IsBoolean == 0 {
+			return false
+		}
+		res, rfn, ok := resultOf(v.X)
+		if !ok {
+			return false
+		}
+		cl, isLit := ast.Unparen(res).(*ast.CompositeLit)
+		if !isLit {
+			return false
+		}
+		fv := litField(cl, sel.Obj().Name())
+		if fv == nil {
+			keyed := len(cl.Elts) == 0
+			for _, el := range cl.Elts {
+				if _, isKV := el.(*ast.KeyValueExpr); isKV {
+					keyed = true
+				}
+			}
+			if !keyed {
+				return false // positional literal: not resolved
+			}
+			return ev.Val // the zero value: false
+		}
+		val, known := r.knownTruth(path, rfn, fv)
 		if !known {
 			return false
 		}
